@@ -35,11 +35,11 @@ type admCase struct {
 
 func genAdmCase(t *rapid.T) admCase {
 	c := admCase{
-		Max:      pick(t, "max", 8, 16, 16, 32, 64, 100),
+		Max:      pick(t, "max", 8, 16, 16, 32, 64, 100, 1000, 5000),
 		Weighted: rapid.IntRange(0, 3).Draw(t, "weighted") == 0,
 		Deferred: rapid.IntRange(0, 3).Draw(t, "deferred") != 0,
 	}
-	nkeys := c.Max * 5 / 2
+	nkeys := min(c.Max*5/2, 400)
 	hot := max(2, c.Max/2)
 	opg := rapid.Custom(func(t *rapid.T) admOp {
 		k := rapid.IntRange(0, 99).Draw(t, "kind")
@@ -55,7 +55,11 @@ func genAdmCase(t *rapid.T) admCase {
 		case k < 97:
 			return admOp{Kind: "run"}
 		default:
-			return admOp{Kind: "setmax", N: rapid.IntRange(c.Max/4, c.Max).Draw(t, "newmax")}
+			if rapid.Bool().Draw(t, "tiny") {
+				// below the weight of a heavy entry that may still sit in the admission window
+				return admOp{Kind: "setmax", N: rapid.IntRange(1, max(2, c.Max/100)).Draw(t, "newmax")}
+			}
+			return admOp{Kind: "setmax", N: rapid.IntRange(1, c.Max).Draw(t, "newmax")}
 		}
 	})
 	c.Ops = rapid.SliceOfN(opg, 20, 400).Draw(t, "ops")
@@ -76,6 +80,10 @@ func runAdmCase(c admCase) outcome {
 		switch id {
 		case "policy.evictFromMain":
 			trace = append(trace, admEv{kind: "begin"})
+		case "policy.evictFromMain.done":
+			trace = append(trace, admEv{kind: "end"})
+		case "policy.demote":
+			trace = append(trace, admEv{kind: "demote", key: args[0].(int)})
 		case "policy.admit":
 			trace = append(trace, admEv{kind: "admit", c: args[0].(int), v: args[1].(int), cf: toInt(args[2]), vf: toInt(args[3])})
 		}
@@ -98,7 +106,7 @@ func runAdmCase(c admCase) outcome {
 	}
 	if c.Weighted {
 		opts.MaximumWeight = uint64(c.Max)
-		opts.Weigher = func(k, v int) uint32 { return uint32(1 + k%3) }
+		opts.Weigher = func(k, v int) uint32 { return admWeight(c.Max, k) }
 	} else {
 		opts.MaximumSize = c.Max
 	}
@@ -135,7 +143,7 @@ func runAdmCase(c admCase) outcome {
 	cache.StopAllGoroutines()
 
 	// judge the trace pass by pass
-	passes, admits, wins, multi, skipped := 0, 0, 0, 0, 0
+	passes, admits, wins, multi, skipped, uncompared := 0, 0, 0, 0, 0, 0
 	i := 0
 	for i < len(trace) && o.Err == nil {
 		if trace[i].kind != "begin" {
@@ -143,10 +151,16 @@ func runAdmCase(c admCase) outcome {
 			continue
 		}
 		j := i + 1
-		for j < len(trace) && trace[j].kind != "begin" {
+		for j < len(trace) && trace[j].kind != "begin" && trace[j].kind != "end" {
 			j++
 		}
 		pass := trace[i+1 : j]
+		// the candidates of this pass: entries moved from the window to the probation queue right before it
+		demoted := map[int]bool{}
+		for d := i - 1; d >= 0 && trace[d].kind == "demote"; d-- {
+			demoted[trace[d].key] = true
+		}
+		consumed := map[int]bool{}
 		i = j
 		passes++
 		var pending *admEv
@@ -155,15 +169,32 @@ func runAdmCase(c admCase) outcome {
 		for x := range pass {
 			ev := &pass[x]
 			switch ev.kind {
+			case "demote":
+				continue
 			case "admit":
 				if pending != nil {
 					ok = false // two comparisons without a removal in between: not interpretable
 				}
 				pending = ev
+				consumed[ev.c] = true
 				nAdm++
 			case "evict":
+				consumed[ev.key] = true
 				if pending == nil {
-					continue // removed without a comparison (only one side present, dead or oversized entry, ...)
+					// removed without a comparison: legitimate for a candidate (oversized, or no victim left) and, for a
+					// resident, once no candidate is left - every arrival of this pass must have been judged or removed by then
+					if !demoted[ev.key] {
+						for d := range demoted {
+							if !consumed[d] {
+								o.Err = fmt.Errorf("the resident key %d was evicted without any comparison while the arrival %d of the same pass had been neither compared with a victim nor removed: it displaced a resident without its estimate being consulted", ev.key, d)
+								break
+							}
+						}
+						if len(demoted) > 0 {
+							uncompared++
+						}
+					}
+					continue
 				}
 				a := pending
 				pending = nil
@@ -214,6 +245,9 @@ func runAdmCase(c admCase) outcome {
 	if skipped > 0 {
 		o.Classes = append(o.Classes, "uninterpretable-pass-skipped")
 	}
+	if uncompared > 0 {
+		o.Classes = append(o.Classes, "resident-evicted-after-all-arrivals-were-judged")
+	}
 	o.Sig = vh.Sig(fmt.Sprint(c))
 	return o
 }
@@ -243,4 +277,23 @@ func TestC18_Admission(t *testing.T) {
 		Assumptions: []string{"the harness observes the inputs of policy.admit through a verif-tagged observation point; the decision itself is inferred from which of the two keys is reported removed next"},
 		Gen:         genAdmCase, Run: runAdmCase,
 	})
+}
+
+// admWeight: most entries weigh 1..3, every fifth key is heavy (a fifth of the capacity), so that lowering the maximum
+// can leave an entry in the window that alone exceeds it.
+func admWeight(max, k int) uint32 {
+	if k%5 == 0 {
+		if max >= 1000 {
+			return uint32(max / 125) // fits into the admission window (1% of the capacity) together with light arrivals
+		}
+		return uint32(max2(2, max/5))
+	}
+	return uint32(1 + k%3)
+}
+
+func max2(a, b int) int {
+	if a > b {
+		return a
+	}
+	return b
 }
